@@ -25,6 +25,17 @@ use crate::error::Error;
 use super::{ExprType, FlagsState, GeneratorState};
 
 impl<'a> GeneratorState<'a> {
+    // STX/STY change a variable without touching the flags: if the flags were recorded as
+    // describing a memory operand, that record may now be stale
+    fn forget_memory_flags(&mut self) {
+        match self.flags {
+            FlagsState::Absolute(_, _, _) | FlagsState::AbsoluteX(_) | FlagsState::AbsoluteY(_) => {
+                self.flags = FlagsState::Unknown
+            }
+            _ => (),
+        }
+    }
+
     pub(crate) fn generate_assign(
         &mut self,
         left: &ExprType,
@@ -211,6 +222,7 @@ impl<'a> GeneratorState<'a> {
                         match left {
                             ExprType::Absolute(_, _, _) => {
                                 self.asm(STX, left, pos, high_byte)?;
+                                self.forget_memory_flags();
                                 /*
                                 if !eight_bits {
                                     if *offset == 0 {
@@ -295,6 +307,7 @@ impl<'a> GeneratorState<'a> {
                         match left {
                             ExprType::Absolute(_, _, _) => {
                                 self.asm(STY, left, pos, high_byte)?;
+                                self.forget_memory_flags();
                                 /*
                                 if !eight_bits {
                                     if *offset == 0 {
